@@ -240,7 +240,8 @@ def run(F, R, tier):
             pv = out.f["payload"]
             if isinstance(pv, sym.V) and pv.name == "None":
                 det = SR.truth_of(q, lambda t__: t__ == SR.fld("detached"))
-                r2.require(any(c_ is True for (_t, c_) in det), (fn, "payload-member"), "the payload member is left out on a path that is not the detached one: %s" % q.describe())
+                absent_ = any(a_[0] == "variant" and a_[1] == KEPT and c_ == "None" for (a_, c_, _, _) in q.decisions)      # the kept Option itself is None
+                r2.require(any(c_ is True for (_t, c_) in det) or absent_, (fn, "payload-member"), "the payload member is left out on a path that is not the detached one: %s" % q.describe())
                 rows_.add("detached → None")
                 continue
             inner = pv.fields[0] if isinstance(pv, sym.V) and pv.name == "Some" and pv.fields else pv
